@@ -264,7 +264,7 @@ PROPS["C02"] = {
     "level_note": _thr_note + "Entry pool off (as the property states) except in ZZ_C02_PoolStaleUpdate. The in-flight bound on unaccounted entries is not asserted as a running monitor; the mechanism behind it (a writer waits on the full queue rather than skipping the accounting) is exercised with a one-slot queue, where a skipped event shows up as an untracked resident entry after the drain. Round 4/5 additions: insert event expired on arrival while a second writer extends the deadline (found the untracked-entry defect repaired in f3993d6), delayed update event vs expiry and re-insertion with the entry pool on, and the ledger of the symbolic sequential histories (ZZ_C06_History, N=2 quick / 3 thorough).",
     "assumptions": ["MaxSize 2, two keys"],
     "outside_bound": ["bound on unaccounted entries while writes are in flight", "more than 2 clients / 2 ops", "preemption bound above 1"],
-    "quick": [H("ZZ_C06_History", params={"N": 2}, reach=["history-done"], bounds="N=2 calls: symbolic sequential histories (Set k1/k2 with symbolic cost and TTL, Get, Delete, clock advance, drain, tick) with the ledger: resident xor notified exactly once, REMOVED iff deleted, overwritten values never notified, accounting and wheel membership after drain, hits+misses = number of Gets"),
+    "quick": [H("ZZ_C06_History", params={"N": 2}, reach=["history-done"], bounds="N=2 calls: symbolic sequential histories (Set k1/k2 with symbolic cost and TTL, Get, Delete, clock advance, drain, tick) with the ledger: resident xor notified exactly once, REMOVED only if deleted, overwritten values never notified, accounting and wheel membership after drain, hits+misses = number of Gets"),
               H("ZZ_C02_ArrivalWindow", params={"PRE": 1}, reach=["settled"], bounds="insert event processed after its deadline while a second writer extends the deadline (cost 1..3 symbolic), preemptions 1"),
               H("ZZ_C06_PoolStaleUpdate", params={"POOL": 1, "PRE": 1}, reach=["drained", "collected-while-writer-delayed"], bounds="entry pool on: delayed update event vs expiry and re-insertion of the key"),
               H("ZZ_C02_Program", params={"PRE": 0}, reach=["drained"], bounds="2 clients x 2 ops, cap 2, preemptions 0, costs symbolic"),
@@ -289,10 +289,10 @@ PROPS["C05"] = {
     "title": "exactly one removal notification, true reason",
     "technique": "SSA symbolic execution with controlled threads: Delete, capacity eviction and expiry of the same entry overlapped in every schedule within the preemption bound; notification ledger oracle",
     "level_text": "Bounded model checking over schedules of the real Store with a removal listener: Delete vs eviction, Delete vs expiry, eviction vs expiry (with a value update before departure), rejected Sets; after drain each departed entry must have exactly one notification with its key, the value held at departure and a reason consistent with how it left, and stored = resident + notified.",
-    "level_note": _thr_note + "Scenario programs (not arbitrary histories); entry pool off and on. Round 4 addition: the ledger of the symbolic sequential histories (ZZ_C06_History N=3: Set with symbolic cost/TTL, Get, Delete, clock advance, drain, tick): every accepted value resident xor notified exactly once, REMOVED iff deleted, overwritten values never notified.",
+    "level_note": _thr_note + "Scenario programs (not arbitrary histories); entry pool off and on. Round 4 addition: the ledger of the symbolic sequential histories (ZZ_C06_History N=3: Set with symbolic cost/TTL, Get, Delete, clock advance, drain, tick): every accepted value resident xor notified exactly once, REMOVED only if deleted, overwritten values never notified.",
     "assumptions": ["scripted overlap scenarios on capacity 1 and 10"],
     "outside_bound": ["arbitrary operation histories", "preemption bound above 1 (thorough 2)"],
-    "quick": [H("ZZ_C06_History", params={"N": 3}, reach=["history-done"], bounds="N=3 calls: symbolic sequential histories (Set k1/k2 with symbolic cost and TTL, Get, Delete, clock advance, drain, tick) with the ledger: resident xor notified exactly once, REMOVED iff deleted, overwritten values never notified, accounting and wheel membership after drain, hits+misses = number of Gets"),
+    "quick": [H("ZZ_C06_History", params={"N": 3}, reach=["history-done"], bounds="N=3 calls: symbolic sequential histories (Set k1/k2 with symbolic cost and TTL, Get, Delete, clock advance, drain, tick) with the ledger: resident xor notified exactly once, REMOVED only if deleted, overwritten values never notified, accounting and wheel membership after drain, hits+misses = number of Gets"),
               H("ZZ_C05_DeleteVsEvict", params={"PRE": 1}, reach=["drained"]), H("ZZ_C05_DeleteVsEvict", params={"PRE": 1, "POOL": 1}, reach=["drained"]),
               H("ZZ_C05_DeleteVsExpire", params={"PRE": 1}, reach=["drained"]), H("ZZ_C05_EvictVsExpire", params={"PRE": 1}, reach=["drained"]),
               H("ZZ_C05_ExpiredOnArrival", reach=["drained", "expired-on-arrival"], bounds="TTL, processing time and cached-clock reading symbolic"),
@@ -357,7 +357,7 @@ PROPS["C16"] = {
     "assumptions": ["hybrid Get is outside the property (stats are in-memory only)"],
     "outside_bound": ["more than 2 concurrent counter updates"],
     "quick": [H("ZZ_C13_Loading", params={"CALLERS": 2, "PRE": 1}, reach=["all-callers-finished"], bounds="two concurrent loading Gets of one absent key (shared load; value, error, panic or Goexit): every call counted exactly once"),
-              H("ZZ_C06_History", params={"N": 2}, reach=["history-done"], bounds="N=2 calls: symbolic sequential histories (Set k1/k2 with symbolic cost and TTL, Get, Delete, clock advance, drain, tick) with the ledger: resident xor notified exactly once, REMOVED iff deleted, overwritten values never notified, accounting and wheel membership after drain, hits+misses = number of Gets"),
+              H("ZZ_C06_History", params={"N": 2}, reach=["history-done"], bounds="N=2 calls: symbolic sequential histories (Set k1/k2 with symbolic cost and TTL, Get, Delete, clock advance, drain, tick) with the ledger: resident xor notified exactly once, REMOVED only if deleted, overwritten values never notified, accounting and wheel membership after drain, hits+misses = number of Gets"),
               H("ZZ_C03_Range", reach=["range-done"], bounds="Range at an arbitrary instant (set time, TTL, read time symbolic, cached clock not refreshed): visits exactly the unexpired keys, once"),
               H("ZZ_C16_GetCounts", reach=["get-done"]), H("ZZ_C16_GetCounts", params={"LOADING": 1}, reach=["get-done"]),
               H("ZZ_C16_Counter", params={"PRE": 2}, reach=["adds-done"]), H("ZZ_C16_Views", reach=["views-done"]),
